@@ -70,6 +70,12 @@ fn real_main(args: &[String]) -> i32 {
             let p = |i: usize| args[i].parse::<u64>().unwrap_or(0);
             engine::worker(check, tier, p(4), p(5), p(6).max(1), p(7), std::path::Path::new(&args[8]))
         }
+        "miri-c19" => {
+            // No panic hook, no capture: Miri reports undefined behaviour on its own
+            let n = args.get(2).and_then(|s| s.parse::<u64>().ok()).unwrap_or(4);
+            let seed = args.get(3).and_then(|s| s.parse::<u64>().ok()).unwrap_or(engine::DEFAULT_SEED);
+            props::c19::miri_tier(n, seed)
+        }
         "show" if args.len() >= 4 => {
             let Some(check) = props::by_id(&args[2]) else {
                 return 2;
